@@ -74,6 +74,7 @@ void checkPrt(Ctx& ctx, const ref::RPrt& r, const std::string& key, bool canonic
 	{
 		// acceptance is demanded of plain well-formed files; one with an empty image or with type bits set need not be accepted
 		bool unusual = false; for (auto& im : r.images) if (im.width == 0 || im.height == 0 || im.type != 0) unusual = true;
+		for (auto& an : r.animations) for (auto& f : an.frames) for (auto& l : f.layers) if (l.bitmapIndex >= r.images.size()) unusual = true;   // a layer naming an image that is not there
 		if (o.cls != 'R' && unusual && o.cls != 'X') { ctx.count("roundtrip/unusual-well-formed-file-refused"); return; }
 	}
 	if (o.cls != 'R') { bad("well-formed-file-rejected", o.what); return; }
